@@ -57,6 +57,13 @@ def gen_cases(rng, tier):
         c["nsetup"] = 0
         c["tags"] = ["terms"]
         cases.append(c)
+    # exchange rates: equal rates quoted per 1 / 100, inverted twice, triangulated
+    from props import C09
+    for c in C09.gen_cases(rng, "quick")[:6 if tier != "thorough" else 30]:
+        c["ctx"] = "rates"
+        c["nsetup"] = 0
+        c["tags"] = ["rates"]
+        cases.append(c)
     return cases
 
 
@@ -65,6 +72,9 @@ def search_cases(rng, focus, broken):
 
 
 def oracle(case, impl):
+    if case.get("ctx") == "rates":
+        from props import C09
+        return [f for f in C09.oracle(case, impl) if f["site"] in ("rate:eq-hash", "rate:eq")]
     if case.get("ctx") is None:
         return [f for f in C07.oracle(case, impl) if f["site"] in ("term:eq-hash",)]
     ctx = _qty.ctx_of(case)
@@ -97,6 +107,8 @@ def oracle(case, impl):
 def nontrivial_key(case, impl):
     keys = set()
     for o, out in zip(case["ops"], impl):
+        if o[0] == "rate_eq" and "eq=true" in out and o[1] != o[2]:
+            keys.add(("rate_eq", len(keys)))
         if o[0] in ("q_hash", "u_hash") and "eq=true" in out:
             keys.add((o[0], o[1].rpartition("@")[2], o[2].rpartition("@")[2],
                       o[1][:2] == "F:", o[2][:2] == "F:"))
